@@ -673,7 +673,6 @@ private:
       throw std::runtime_error("ThreadPool is draining and not accepting new work");
     }
 
-    bool shouldSpawn = false;
     {
       std::unique_lock<std::mutex> lock(_mutex);
       if (_shutdown)
@@ -688,18 +687,18 @@ private:
 
       _tasks.emplace(std::move(f));
 
-      // Check if we should spawn a new thread
+      // Spawn a new thread if below the hard limit. The size check and the
+      // registration of the new worker in _threads must happen under the same
+      // lock hold: otherwise concurrent submitters all see
+      // _threads.size() < _maxSize and each spawn one (maxSize exceeded), and a
+      // worker could idle-exit before it is registered (leaving a dead entry
+      // that blocks later spawns). The new worker needs _mutex before it does
+      // anything, so it simply waits until this scope is left.
       if (_threads.size() < _maxSize)
       {
-        shouldSpawn = true;
+        spawnWorkerLocked();
       }
     } // Release mutex here
-
-    // Spawn outside of the lock to avoid deadlock
-    if (shouldSpawn)
-    {
-      spawnWorker();
-    }
 
     _condition.notify_one();
   }
@@ -712,7 +711,6 @@ private:
       return false; // Draining, reject task
     }
 
-    bool shouldSpawn = false;
     {
       std::unique_lock<std::mutex> lock(_mutex);
       if (_shutdown)
@@ -727,24 +725,31 @@ private:
 
       _tasks.emplace(std::move(f));
 
-      // Check if we should spawn a new thread
+      // Spawn a new thread if below the hard limit. The size check and the
+      // registration of the new worker in _threads must happen under the same
+      // lock hold: otherwise concurrent submitters all see
+      // _threads.size() < _maxSize and each spawn one (maxSize exceeded), and a
+      // worker could idle-exit before it is registered (leaving a dead entry
+      // that blocks later spawns). The new worker needs _mutex before it does
+      // anything, so it simply waits until this scope is left.
       if (_threads.size() < _maxSize)
       {
-        shouldSpawn = true;
+        spawnWorkerLocked();
       }
     } // Release mutex here
-
-    // Spawn outside of the lock to avoid deadlock
-    if (shouldSpawn)
-    {
-      spawnWorker();
-    }
 
     _condition.notify_one();
     return true;
   }
 
   void spawnWorker()
+  {
+    std::lock_guard<std::mutex> lock(_mutex);
+    spawnWorkerLocked();
+  }
+
+  /// Creates a worker and registers it in _threads. Caller must hold _mutex.
+  void spawnWorkerLocked()
   {
     std::thread t(
       [this]()
@@ -926,7 +931,6 @@ private:
         #undef VALIDATE_CANARY
       });
 
-    std::lock_guard<std::mutex> lock(_mutex);
     auto threadId = t.get_id();
     _threads.emplace(threadId, std::move(t));
 
